@@ -83,7 +83,7 @@ def run(c):
     # symbolic blob by the independent reader and judged by the same rule (family p7mut)
     env = dict(os.environ, VERIF_FIXTURES=os.path.join(vf.VERIF, "fixtures"), VERIF_REPO=vf.REPO)
     nm = 1500 if c.quick else 60000
-    srcs = ["lib-data-detached", "lib-spc", "openssl-smime", "openssl-cms-nodetach", "fixture-sbsign", "fixture-sbvarsign"]
+    srcs = ["lib-data-detached", "lib-spc", "openssl-smime", "openssl-cms-nodetach", "fixture-sbsign", "fixture-sbvarsign", "lib-data-highserial", "lib-spc-bigserial"]
     mut = [{"sc": 10 ** 7 + i, "source": srcs[i % len(srcs)], "n": i // len(srcs), "mode": "bitflip" if i % 3 else "struct"} for i in range(nm)]
     res, deaths = c.run_worker("p7mut", mut, env=env, timeout=1800)
     mstats = judge_observations(c, mut, res, deaths, must=False)
